@@ -495,15 +495,21 @@ type sharder struct {
 	res   *hx.Result
 	shard int
 	file  *hx.CoqFile
+	fileH *hx.CoqFile
 	nfile int
 }
 
-const header = "From Coq Require Import List NArith.\nFrom Verif Require Import model.LegacyTy model.LegacySyntax model.Legacy model.LegacyCorr proofs.LegacyProofs.\nImport ListNotations.\nOpen Scope N_scope.\nDefinition cases : list (lcase * bool) := ["
-const footer = "].\nDefinition M := Eval vm_compute in mismatches2 cases.\nPrint M."
+// every shard is written twice: cases_C17_<n>.v imports only the model (model/implementation comparison, still runs
+// when a proof is broken) and cases_C17h_<n>.v evaluates the coverage of the theorems' hypothesis (proofs/LegacyProofs.v)
+const header = "From Coq Require Import List NArith.\nFrom Verif Require Import model.LegacyTy model.LegacySyntax model.Legacy model.LegacyCorr.\nImport ListNotations.\nOpen Scope N_scope.\nDefinition cases : list (lcase * bool) := ["
+const footer = "].\nDefinition M := Eval vm_compute in mismatches (map fst cases).\nPrint M."
+const headerH = "From Coq Require Import List NArith.\nFrom Verif Require Import model.LegacyTy model.LegacySyntax model.Legacy model.LegacyCorr proofs.LegacyProofs.\nImport ListNotations.\nOpen Scope N_scope.\nDefinition cases : list (lcase * bool) := ["
+const footerH = "].\nDefinition M := Eval vm_compute in hyp_mismatches cases.\nPrint M."
 
 func (s *sharder) add(coq string, input, impl any) {
 	if s.file == nil {
 		s.file = hx.NewCoqFile(fmt.Sprintf("cases_C17_%03d.v", s.nfile), header)
+		s.fileH = hx.NewCoqFile(fmt.Sprintf("cases_C17h_%03d.v", s.nfile), headerH)
 		s.nfile++
 	}
 	sep := ";"
@@ -511,6 +517,7 @@ func (s *sharder) add(coq string, input, impl any) {
 		sep = " "
 	}
 	s.file.Add(sep + " " + coq)
+	s.fileH.Add(sep + " " + coq)
 	s.res.Cases = append(s.res.Cases, hx.Case{File: s.file.Name, Index: s.file.N, Input: input, Impl: impl})
 	s.file.N++
 	if s.file.N >= s.shard {
@@ -522,7 +529,9 @@ func (s *sharder) flush() {
 	if s.file != nil {
 		s.file.Add(footer)
 		s.file.Save(s.o, s.res)
-		s.file = nil
+		s.fileH.Add(footerH)
+		s.fileH.Save(s.o, s.res)
+		s.file, s.fileH = nil, nil
 	}
 }
 
